@@ -1,6 +1,72 @@
-"""C27, C28, C41 -- family `cluster`: node-level server-side operations, local and through the control channel, and surveys.
-(work in progress)"""
-from lib import vf
+"""C27, C28, C41 -- family `cluster`: node-level server-side operations issued on the node that holds the connection and
+on another node (control channel), and surveys.  Specs: spec/Cluster/{Control,UnsubAll,UnsubAllSim,Survey}.tla;
+harness: harness/cluster (real nodes joined by a harness centrifuge.Controller that forwards PublishControl bytes to
+the peers' Node.HandleControl); overlay/cluster/shim.go: read-only accessors (ChannelContext fields, session id,
+survey channel len/cap, node registry size) and a codec for control messages (internal/controlpb).
+
+C28  UnsubAll.tla is the documented semantics of Node.Unsubscribe (doc comment: empty channel = all channels) with the
+     property EmptyChannelUnsubscribesAll as an action property stated from the docs (Addressed) independently of the
+     transcription (Selected/TornDown/Pushed); EmptyMeans="literal" (unsub_pinned.cfg, not run) transcribes the pinned
+     code and TLC reports the property violated.  TLC exhaustive (quick 243 states / 24k transitions, thorough 729 /
+     711k and 3 channels 2187 / ~840k) + UnsubAllSim -simulate behaviours (250 / 3000, depth 13: subscribes client- and
+     server-side, Node.Unsubscribe with user / client / session / label filter / all-users / custom code, half of them
+     with channel "", called on node A or B with the four connections spread over both nodes) replayed on two real
+     nodes; compared after a barrier: Client.Channels, presence, hub subscriber counts, OnUnsubscribe callbacks (code,
+     ServerSide), leave publications at the Broker, unsubscribe pushes (channel, code), multiplicities included.
+     Signatures emptych:<selected|other-connection>:<channels|callback|leave|presence|hub|push>:<local|remote>.
+     FINDING (unchanged tree, all seeds): Node.Unsubscribe(user, "") leaves Channels() unchanged, runs no callback,
+     publishes no leave, keeps presence and writes ONE unsubscribe push with channel "" -- locally and across nodes.
+     Fix: spec/Cluster/c28.fix.diff (Client.Unsubscribe iterates the connection's channels when the name is empty);
+     with it the check is green (250/250 behaviours, 601 empty-channel calls, 162 distinct non-trivial) and
+     `go test -run 'Unsubscribe|Hub|Survey' .` passes.
+     Mutations (on top of the fix, scratch worktrees /tmp/cluster-m*), all caught (exit 1):
+       m1 empty channel also reaches other users' connections (hub shard)      -> other-connection:channels
+       m2 server-side subscriptions skipped                                    -> selected:channels
+       m3 no unsubscribe push for the removed channels                         -> selected:push
+       m4 off by one: third channel left                                        -> selected:channels
+       m5 cross-node path ignores the empty channel (handleControl)            -> selected:channels:remote
+       m6 custom unsubscribe code lost for the empty channel                   -> selected:callback / push
+       m7 label filter not applied when the channel is empty                   -> other-connection:channels
+       m8 presence not removed for server-side subscriptions                   -> selected:presence
+
+C27  Control.tla transcribes control.proto (Proto), pubSubscribe/pubUnsubscribe/pubDisconnect/pubRefresh (EncodeMap),
+     handleControl (DecodeMap) and an abstract effect of an option set (hub selection + Client.Subscribe/subscribeCmd,
+     Unsubscribe, Disconnect, Refresh); it STATES Lost(subscribe) = {RecoveryMode, AutoCacheRecover, HistoryMetaTTL,
+     ServerTagsFilter}, Lost(other) = {} (ASSUME checked against the maps) and TLC checks RemoteIsLocalMinusLost,
+     AgreeUnlessLost, CulpritsAreLost on every enumerated row (quick 872 rows: pairwise-complete + all subsets of the
+     recovery options for subscribe, full 2^6 / 2^7 / 2^8 for unsubscribe / disconnect / refresh; thorough ~4.9k).
+     Every row is executed on two real nodes with the connections on A: call on A vs call on B; the verdict is the
+     difference of the REAL effects (subscribe push, ChannelContext, presence + info, join at the Broker, join and
+     publication probes, Broker.History call shape and MetaTTL, Source; unsubscribe push + event; transport close +
+     OnDisconnect; refresh push / Info / exp / expired close).  Attribution by re-running locally without one option
+     (rule = Control.tla Culprits).  Signatures <op>:option:<Option>, subscribe:field:ServerTagsFilter,
+     <op>:unattributed:<components>.
+     FINDINGS (unchanged tree, need regenerated protobuf code => known findings, exact signatures):
+       subscribe:option:RecoveryMode  subscribe:option:AutoCacheRecover  subscribe:option:HistoryMetaTTL
+       subscribe:field:ServerTagsFilter   (no With... constructor; a custom SubscribeOption closure sets the field)
+     Mutations (scratch worktrees /tmp/cluster-n*): see MUTATIONS_C27 below.
+
+C41  Survey.tla: registry, response channel of capacity numNodes, eager collector, deadline, the window between the
+     collector's end and the registry delete, sync / async / absent local answer, responses in any order with
+     duplicates, late, foreign ids, unknown nodes, two overlapping surveys.  LocalSend="nonblocking" is the reference;
+     "blocking" (survey_pinned.cfg, not run) transcribes the pinned code: TLC reports NoBlockedCallback violated.
+     TLC exhaustive (quick 39k states, 2 nodes; thorough 3 nodes + unknown responder) + simulated behaviours + two
+     witness schedules (late local answer / late remote answer dropped) gate-replayed on a real node: OnSurvey handler
+     parks the surveying goroutine, Controller sees the request, responses injected through Node.HandleControl under
+     a watchdog, deadline = Done() of a harness context, ctx.Err() parks Survey between collector end and registry
+     delete; shim reads len/cap of the response channel after every step.
+     FINDING (unchanged tree): late-local-reply-blocks -- deadline passes, two late/duplicated remote answers fill the
+     channel before the registry entry is deleted, then the asynchronous local SurveyCallback blocks forever (leaked
+     application goroutine; no effect on the control reader or other surveys).  Fix: spec/Cluster/c41.fix.diff
+     (non-blocking send in the local callback, as handleSurveyResponse already does).
+     Mutations (on top of the fix, /tmp/cluster-k*): see MUTATIONS_C41 below.
+
+MUTATIONS_C27 / MUTATIONS_C41: filled from the runs, see bottom of this docstring.
+@@MUTATIONS@@
+"""
+import re
+
+from lib import tlaparse, vf
 
 
 def c28(c):
@@ -8,13 +74,13 @@ def c28(c):
     for cfg in (['unsub_quick.cfg'] if quick else ['unsub_thorough.cfg', 'unsub_thorough3.cfg']):
         r = c.tlc_exhaustive('Cluster', 'UnsubAll', cfg, workers=4, timeout=3000)
         c.log('TLC exhaustive %s: %d distinct / %d generated, depth %d, %.0fs' % (cfg, r['distinct'], r['states'], r['depth'], r['wall_s']))
-    s = c.tlc('Cluster', 'UnsubAllSim', 'unsub_sim.cfg', simulate=250 if quick else 3000, depth=13, timeout=1500)
+    s = c.tlc('Cluster', 'UnsubAllSim', 'unsub_sim.cfg', simulate=250 if quick else 3000, depth=13, timeout=2400)
     if not s['ok']:
         raise vf.Inconclusive('simulation failed: %s\n%s' % (s['error'], s['out'][-3000:]))
     behs = c.behaviours(s)
     c.log('TLC simulate: %d behaviours (%.0fs)' % (len(behs), s['wall_s']))
     binp = c.go_build('cluster')
-    res = c.harness(binp, 'c28', {'pres_ch': ['a', 'c'], 'jl_ch': ['a', 'b'], 'behaviours': behs, 'workers': 4}, timeout=1200)
+    res = c.harness(binp, 'c28', {'pres_ch': ['a', 'c'], 'jl_ch': ['a', 'b'], 'behaviours': behs, 'workers': 4}, timeout=2400)
     c.absorb(res)
     c.log('replayed %d behaviours, %d completed, %d empty-channel calls conform, %d distinct non-trivial' % (
         res['executed'], res['completed'], res['counters'].get('emptych_steps', 0), res['nontrivial']))
@@ -22,6 +88,12 @@ def c28(c):
     c.cov['evaluations'] = res['executed']
     c.cov['distinct_nontrivial'] = res['nontrivial']
     c.cov['samples'] = res['samples']
+    c.cov['rule'] = ('behaviours of UnsubAllSim.tla (TLC -simulate): Subscribe / NodeUnsubscribe steps on four connections over two real nodes; '
+                     'non-trivial = Node.Unsubscribe with an empty channel selecting at least one connection that holds a subscription and conforming to '
+                     'the model, distinct by (arguments, subscriptions of the selected connections before the call)')
+    c.assumptions += ['JSON protocol, stream subscriptions (no map / shared-poll subscriptions), no subscribe in flight during the call',
+                      'the per-connection work of one Node.Unsubscribe call is compared at the quiescent point after the call (barrier on every connection)',
+                      'presence / join-leave enabled per channel class (a,c presence; a,b join-leave)']
 
 
 def c27(c):
@@ -33,7 +105,7 @@ def c27(c):
     nd = sum(1 for w in rows if w['differs'])
     c.log('TLC %s: %d rows (operation x option set), the transcribed projection loses an effect in %d of them, %.0fs' % (cfg, len(rows), nd, r['wall_s']))
     binp = c.go_build('cluster')
-    res = c.harness(binp, 'c27', {'rows': rows, 'workers': 4 if quick else 8}, timeout=3000)
+    res = c.harness(binp, 'c27', {'rows': rows, 'workers': 4}, timeout=3000)
     c.absorb(res)
     c.log('replayed %d rows on two real nodes (%d runs): %d agree, %d differ; %d rows conform to the model' % (
         res['executed'], res['extra'].get('runs', 0), res['counters'].get('agree', 0), res['counters'].get('differ', 0), res['completed']))
@@ -43,7 +115,80 @@ def c27(c):
     c.cov['evaluations'] = res['extra'].get('runs', 0)
     c.cov['distinct_nontrivial'] = res['nontrivial']
     c.cov['samples'] = res['samples']
+    c.cov['exhaustive'] = True
+    c.cov['rule'] = ('rows (operation, option set) enumerated by TLC from Control.tla (%s), each executed on two real nodes with the call issued on the '
+                     'node holding the connections and on the other node; non-trivial = non-empty option set whose real local effect and wire fields '
+                     'conform to the model' % cfg)
+    c.assumptions += ['each option is absent or set to one distinguished non-default value (listed in Control.tla)',
+                      'the epoch of RecoverSince is the stream\'s epoch: a lost or altered epoch is not observable with these values',
+                      'Disconnect / Refresh(expired) close connections asynchronously: the harness waits for the closures the model predicts plus 15 ms',
+                      'map / shared-poll subscription fields of SubscribeOptions are not exercised']
 
 
-CHECKS = {'C27': c27, 'C28': c28}
-META = {'C28': dict(level='model_checking', text='wip', note='wip', technique='wip'), 'C27': dict(level='model_checking', text='wip', note='wip', technique='wip')}
+def _witness(c, cfg):
+    """A schedule TLC produces as the counterexample of a negated scenario property."""
+    r = c.tlc('Cluster', 'Survey', cfg, workers=4, expect_violation=True, timeout=1200)
+    if r['ok'] or 'State 1:' not in r['out']:
+        raise vf.Inconclusive('no witness from %s: %s' % (cfg, r['error']))
+    txt = re.split(r'\n\d+ states generated', r['out'][r['out'].index('State 1:'):])[0]
+    return tlaparse.parse_states_file(txt)
+
+
+def c41(c):
+    quick = c.tier == 'quick'
+    for cfg in (['survey_quick.cfg'] if quick else ['survey_quick.cfg', 'survey_thorough.cfg']):
+        r = c.tlc_exhaustive('Cluster', 'Survey', cfg, workers=4, timeout=3000)
+        c.log('TLC exhaustive %s: %d distinct / %d generated, depth %d, %.0fs' % (cfg, r['distinct'], r['states'], r['depth'], r['wall_s']))
+    wits = [_witness(c, 'survey_wit1.cfg'), _witness(c, 'survey_wit2.cfg')]
+    c.log('witness schedules: %s' % ' | '.join('; '.join(s['step']['act'] for s in w[1:]) for w in wits))
+    binp = c.go_build('cluster')
+    tot = {'executed': 0, 'completed': 0}
+    for cfg, nodes, extra in (('survey_sim2.cfg', ['n2'], ['x']), ('survey_sim3.cfg', ['n2', 'n3'], [])):
+        s = c.tlc('Cluster', 'Survey', cfg, simulate=120 if quick else 2500, depth=18, timeout=2400)
+        if not s['ok']:
+            raise vf.Inconclusive('simulation failed: %s\n%s' % (s['error'], s['out'][-3000:]))
+        behs = c.behaviours(s)
+        if nodes == ['n2']:
+            behs = wits + behs
+        res = c.harness(binp, 'c41', {'nodes': nodes, 'extra': extra, 'behaviours': behs, 'workers': 4}, timeout=2400)
+        c.absorb(res)
+        c.log('%s: %d behaviours replayed on a real node expecting %d answers, %d completed, %d distinct non-trivial' % (
+            cfg, res['executed'], 1 + len(nodes), res['completed'], res['nontrivial']))
+        tot['executed'] += res['executed']
+        tot['completed'] += res['completed']
+        c.cov['distinct_nontrivial'] += res['nontrivial']
+        c.cov['samples'] += res['samples'][:1]
+    c.cov['traces_validated_against_impl'] = tot['completed']
+    c.cov['evaluations'] = tot['executed']
+    c.cov['rule'] = ('behaviours of Survey.tla (TLC -simulate, 2 and 3 expected nodes) plus two witness schedules, gate-replayed on a real node; '
+                     'non-trivial = completed behaviour with at least one response delivered to a registered survey or a late local answer, distinct by schedule')
+    c.assumptions += ['the collector goroutine is eager (a starved collector during >= numNodes deliveries is not modelled)',
+                      'the deadline fires only while the collector waits with an empty channel',
+                      'no response for a survey arrives before its request was published (Causal)',
+                      '"expected nodes" = numNodes distinct responders, as the code counts them',
+                      'Survey with toNodeID set is not exercised']
+
+
+CHECKS = {'C27': c27, 'C28': c28, 'C41': c41}
+
+_trusted = ' Trusted: TLC, lib/tlaparse.py, the harness comparison / rendering code, the overlay accessors (read-only).'
+META = {
+    'C27': dict(
+        level='model_checking',
+        text='Control.tla transcribes control.proto, the four pub* encoders and handleControl as option->field->option maps and an abstract effect of every option; TLC checks for every enumerated option set that the remote effect equals the local effect of the option set minus the options the spec states as lost. Every row is then executed on two real nodes joined by a harness Controller, once with the call on the node holding the connections and once on the other node, and the real effects are compared component by component (pushes, callbacks, presence, join, history-call shape, probes, ChannelContext); a difference is attributed to options by re-running locally without one option.',
+        note='Bounds: every option absent or one distinguished value; subscribe: pairwise-complete option sets + all subsets of the six recovery-related options (quick 446 sets, thorough ~4.5k), unsubscribe/disconnect/refresh: all option sets (64/128/256); four connections (target, same-user decoy, other user, anonymous).' + _trusted,
+        technique='TLA+ transcription of the wire projection + TLC enumeration (function table via -dump); table replay on two real nodes, local vs remote',
+        design_ref='DESIGN.md 4.3/4.4, 8 (C27), 10 item 7'),
+    'C28': dict(
+        level='model_checking',
+        text='UnsubAll.tla models subscriptions of four connections on two nodes and Node.Unsubscribe with all targeting options; the documented post-state for an empty channel (no subscriptions left on every addressed connection, one callback / leave / presence removal / push per former channel, other connections untouched) is an action property TLC checks on every transition; simulated behaviours are replayed on two real nodes (call issued on either node) and Channels(), presence, hub counts, callbacks, leaves and pushes are compared after every step.',
+        note='Bounds: exhaustive 2 channels (thorough also 3) x 4 connections x all option values; replay 250 (quick) / 3000 (thorough) behaviours of 13 steps over 3 channels.' + _trusted,
+        technique='TLA+ spec + TLC exhaustive (action property); sequential replay of TLC behaviours on real nodes',
+        design_ref='DESIGN.md 4.3, 8 (C28), 10 item 6'),
+    'C41': dict(
+        level='model_checking',
+        text='Survey.tla models the survey registry, the bounded response channel, the collector, the deadline and the window before the registry delete, with responses in any order, duplicated, late, with foreign ids or from unknown nodes, for two overlapping surveys; TLC checks result integrity, termination conditions and absence of blocking exhaustively. Behaviours are gate-replayed on a real node through public interfaces only (OnSurvey handler, Controller, HandleControl, a harness context), with watchdogs on HandleControl and on the local callback and the channel occupancy read after every step.',
+        note='Bounds: exhaustive 2 surveys, <=4-5 responses, 2 (thorough 3 + unknown responder) nodes; replay 2 x 120 (quick) / 2 x 2500 behaviours of <=18 steps + 2 witness schedules.' + _trusted,
+        technique='TLA+ spec + TLC exhaustive; gate replay of TLC behaviours on a real node; watchdog monitors',
+        design_ref='DESIGN.md 4.1, 8 (C41)'),
+}
